@@ -7,7 +7,8 @@ Dom == [ closer |-> {"client", "server", "client-then-server", "server-then-clie
          up     |-> {"none", "small", "in-flight-large"},
          down   |-> {"none", "small", "in-flight-large"},
          wseg   |-> {"1", "small", "1024", "1025", "64k"},
-         rbuf   |-> {"1", "7", "1024", "4096", "64k"} ]
+         rbuf   |-> {"1", "7", "1024", "4096", "64k"},
+         pace   |-> {"prompt", "slow-reader"} ]        \* a peer that reads slowly keeps data queued in the bridge when closes arrive
 VARIABLE x
 GInit == x = 0
 GNext == x' = x
